@@ -116,6 +116,21 @@ impl Campaign for C06c {
             loop_receivers(1, Dispatch::Inline)
         };
         sc.note = format!("C06 index {}", index);
+        if index % 16 == 7 {
+            // one thread holds a request of each of two connections and panics while handling the
+            // first: unwinding drops the other one too; both connections must get a 500
+            let mut sc2 = Scenario::new();
+            sc2.knobs = sc.knobs.clone();
+            for ci in 0..2 {
+                let id = format!("c{}r0", ci);
+                sc2.conns.push(ConnScript { steps: vec![ClientStep::Send(B(Req::get(&id).bytes()))], ..Default::default() });
+                let finish = if ci == 0 || g.chance(1, 2) { Finish::Panic } else { Finish::Respond(RespSpec::simple(200, token_body(&id, 10))) };
+                sc2.programs.insert(id, Program { delay: 0, after: vec![], body: BodyPlan::None, delay2: 0, finish });
+            }
+            sc2.receivers = vec![Receiver { start_at: 0, calls: vec![RecvCall::Recv, RecvCall::Recv], dispatch: Dispatch::Hold(2) }];
+            sc2.note = format!("C06 index {} panic-while-holding-two", index);
+            return sc2;
+        }
         sc
     }
 
@@ -133,16 +148,31 @@ impl Campaign for C06c {
             let reqs = conn_requests(sc, ci);
             let co = &out.obs.conns[ci];
             // delivered requests of this connection, in wire order
+            let handed: Vec<String> = out
+                .obs
+                .events
+                .iter()
+                .filter_map(|e| match e {
+                    crate::engine::Ev::RecvCall { res: crate::engine::RecvRes::Got(id), .. } => Some(id.clone()),
+                    _ => None,
+                })
+                .collect();
             let mine: Vec<&crate::httpmodel::ReqMsg> = reqs
                 .iter()
-                .filter(|r| deliv.iter().any(|d| Some(&d.0) == r.id.as_ref()))
+                .filter(|r| deliv.iter().any(|d| Some(&d.0) == r.id.as_ref()) || r.id.as_ref().map(|i| handed.contains(i)).unwrap_or(false))
                 .collect();
+            let holder_panicked = out.report.panics.iter().any(|p| p.thread_name.as_deref() == Some("receiver"));
+            let never_started = |id: &str| !out.obs.events.iter().any(|e| matches!(e, crate::engine::Ev::FinishStart { id: i, .. } if i == id));
             // duplicates are C07's business; here every delivered request owes one final response
             let exp: Vec<(String, Expect, bool)> = mine
                 .iter()
                 .map(|r| {
                     let id = r.id.clone().unwrap();
                     let p = sc.programs.get(&id).unwrap_or(&sc.default_program);
+                    if holder_panicked && never_started(&id) {
+                        // dropped by the unwinding of the thread that held it
+                        return (id, Expect::Msg(500, vec![]), r.is_head);
+                    }
                     (id, expect_of(p, r.is_head), r.is_head)
                 })
                 .collect();
@@ -159,6 +189,7 @@ impl Campaign for C06c {
             let all_finished = exp.iter().all(|e| {
                 out.obs.events.iter().any(|ev| matches!(ev, crate::engine::Ev::FinishEnd { id, seq, .. } if id == &e.0 && *seq <= main.seq))
                     || matches!(sc.programs.get(&e.0).map(|p| &p.finish), Some(Finish::Panic))
+                    || (holder_panicked && never_started(&e.0))
             });
             for (k, e) in exp.iter().enumerate() {
                 let (es, eb) = match &e.1 {
@@ -167,7 +198,8 @@ impl Campaign for C06c {
                 };
                 match got.get(k) {
                     Some(m) => {
-                        if m.status != es || m.body != eb {
+                        let auto = es == 500 && (matches!(sc.programs.get(&e.0).map(|p| &p.finish), Some(Finish::Drop) | Some(Finish::Panic)) || (holder_panicked && never_started(&e.0)));
+                        if m.status != es || (!auto && m.body != eb) {
                             v.violations.push(Violation {
                                 clause: "C06.status_body".into(),
                                 signature: format!("{} answered wrongly", kind_of(sc, &e.0)),
